@@ -27,6 +27,7 @@ type Plan struct {
 	TornDen       int      `json:"torn_den"`
 	Log           string   `json:"log"`
 	Ambient       int      `json:"ambient"`
+	Stall         bool     `json:"stall"`
 }
 
 func init() {
@@ -60,6 +61,7 @@ func init() {
 	simos.CLIMode = true
 	simos.Ambient = p.Ambient
 	verifhook.Ambient = p.Ambient
+	verifhook.Stall = p.Stall
 	simos.Reset(p.FaultAt, p.Kind, p.TornNum, p.TornDen)
 	if p.Log != "" {
 		lf, err := os.OpenFile(p.Log, os.O_CREATE|os.O_WRONLY|os.O_APPEND, 0o644)
